@@ -6,6 +6,7 @@ import Just.Model.Analyzer
 import Just.Lemmas.Dfs
 import Just.Lemmas.DfsFuel
 import Just.Lemmas.ParsedCalls
+import Just.Lemmas.Define
 namespace Just.Props.C03
 open Just Just.Analyzer
 
@@ -507,5 +508,69 @@ theorem bad_call_never_parses (f : Nat) (ts : List Syntax.Tk) (e : Expr) (r : Li
   have h1 := Syntax.parsed_callsOk f ts e r h
   rw [callsOk_false_of_bad e hb] at h1
   cases h1
+
+/-! ### a name defined twice -/
+open Just.Define in
+/-- **Duplicate definitions are rejected exactly when the statement says so**: a module passes the
+duplicate checks iff no two of its aliases, submodules and recipes share a name — except two
+*recipes* under `allow-duplicate-recipes` — and no two assignments share a name unless
+`allow-duplicate-variables` is set.  In whatever order the items are written and met (the analyzer
+defines aliases and modules first and recipes afterwards): the verdict depends on the set of
+definitions only. -/
+theorem duplicates_rejected_iff (allowRecipes allowVars : Bool) (items : List Def) (vars : List String) :
+    accepts allowRecipes allowVars items vars = true ↔
+      (items.Pairwise (Compatible allowRecipes) ∧ (allowVars = true ∨ vars.Nodup)) := by
+  unfold accepts
+  rw [Bool.and_eq_true, defineAll_isSome]
+  have hperm := order_perm items
+  have hp : (order items).Pairwise (Compatible allowRecipes) ↔ items.Pairwise (Compatible allowRecipes) :=
+    hperm.pairwise_iff (fun h => Compatible.symm h)
+  rw [hp]
+  have ht : TableOk allowRecipes [] (order items) := by intro d _ k0 hk; simp [List.lookup] at hk
+  have hv : (allowVars || !hasDup vars) = true ↔ (allowVars = true ∨ vars.Nodup) := by
+    rw [Bool.or_eq_true, ← hasDup_iff]
+    cases hasDup vars <;> simp
+  rw [hv]
+  constructor
+  · intro ⟨⟨h1, _⟩, h2⟩; exact ⟨h1, h2⟩
+  · intro ⟨h1, h2⟩; exact ⟨⟨h1, ht⟩, h2⟩
+
+theorem pairwise_mem {α : Type} {R : α → α → Prop} : ∀ {l : List α}, l.Pairwise R →
+    ∀ {a b : α}, a ∈ l → b ∈ l → a ≠ b → R a b ∨ R b a
+  | [], _, _, _, ha, _, _ => by cases ha
+  | x :: xs, hp, a, b, ha, hb, hne => by
+    rw [List.pairwise_cons] at hp
+    rcases List.mem_cons.mp ha with rfl | ha'
+    · rcases List.mem_cons.mp hb with rfl | hb'
+      · exact absurd rfl hne
+      · exact Or.inl (hp.1 b hb')
+    · rcases List.mem_cons.mp hb with rfl | hb'
+      · exact Or.inr (hp.1 a ha')
+      · exact pairwise_mem hp.2 ha' hb' hne
+
+open Just.Define in
+/-- in particular `allow-duplicate-recipes` never lets a recipe take the name of an alias or of a
+submodule (nor the other way round), wherever the two stand -/
+theorem mixed_kinds_always_rejected (allowRecipes allowVars : Bool) (items : List Def) (vars : List String)
+    (a b : Def) (ha : a ∈ items) (hb : b ∈ items) (hn : a.name = b.name) (hk : a.kind ≠ b.kind) :
+    accepts allowRecipes allowVars items vars = false := by
+  cases h : accepts allowRecipes allowVars items vars with
+  | false => rfl
+  | true =>
+    exfalso
+    rw [duplicates_rejected_iff] at h
+    have hne : a ≠ b := fun heq => hk (by rw [heq])
+    have := pairwise_mem h.1 ha hb hne
+    rcases this with hc | hc
+    · have := hc hn; exact hk (by rw [this.2.1, this.2.2])
+    · have := hc hn.symm; exact hk (by rw [this.2.1, this.2.2])
+
+open Just.Define in
+/-- non-vacuity: two recipes `build` pass under the setting; a recipe and an alias `build` never -/
+example : accepts true false [⟨"build", .recipe⟩, ⟨"x", .alias⟩, ⟨"build", .recipe⟩] ["v"] = true ∧
+    accepts true true [⟨"build", .recipe⟩, ⟨"build", .alias⟩] [] = false ∧
+    accepts true true [⟨"build", .alias⟩, ⟨"build", .recipe⟩] [] = false ∧
+    accepts false true [⟨"m", .module⟩, ⟨"m", .recipe⟩] [] = false ∧
+    accepts true false [] ["v", "v"] = false := by decide
 
 end Just.Props.C03
